@@ -557,3 +557,17 @@ package expr
 //@       ensures result >= 0
 //@       modifies nothing
 //@   modifies all
+
+// The field number of an attribute is the LAST "rpc:tag" value recorded for it (a redefinition overrides an
+// inherited number): validation (validateRPCTags) and the proto generator (grpc/codegen rpcTag) both read it
+// through FieldTag.
+//@ func MetaExpr.Last
+//@   params m key
+//@   property C10
+//@   ensures* last.value: result1 == (inMap(m, key) && len(m[key]) >= 1) && (result1 ==> result0 == m[key][len(m[key]) - 1])
+//@   modifies nothing
+//@ func (*AttributeExpr).FieldTag
+//@   params a
+//@   property C10
+//@   ensures* last.rpc.tag: (a == nil ==> !result1) && (a != nil ==> result1 == (inMap(a.Meta, "rpc:tag") && len(a.Meta["rpc:tag"]) >= 1) && (result1 ==> result0 == a.Meta["rpc:tag"][len(a.Meta["rpc:tag"]) - 1]))
+//@   modifies nothing
